@@ -22,6 +22,8 @@ using namespace uncrustify;
 inline int operator&(iarf_e a, iarf_e b) { return (int)a & (int)b; }     // flags<iarf_e> of src/enum_flags.h: bit test
 struct FILE;
 static FILE *stderr;
+namespace std { static inline int max(int a, int b) { return((a > b) ? a : b); } static inline size_t max(size_t a, size_t b) { return((a > b) ? a : b); }
+                static inline int min(int a, int b) { return((a < b) ? a : b); } static inline size_t min(size_t a, size_t b) { return((a < b) ? a : b); } }   // <algorithm>
 #define fprintf(...) ((void)0)
 #define EX_SOFTWARE 70
 static Chunk g_pool[3];
